@@ -1333,7 +1333,71 @@ fn huge_region() {
     out::count("huge_region_bytes", len as i128);
 }
 
+/// Store-buffer litmus for "write, then mark" against "clear, then copy" (a migration round):
+/// a writer stores new bytes into a page that is already dirty and marks it; concurrently a
+/// harvester clears the page's bit and then copies the page. Whatever the interleaving, a page
+/// that ends the round CLEAN must have been copied with the new bytes (otherwise the write is
+/// lost to the migration). Real threads on real hardware: this is the one place where the
+/// ordering strength of the mark (a full barrier between the data store and the bitmap access)
+/// is observable.
+fn harvest_litmus(rounds: u64) {
+    use std::sync::atomic::{AtomicU64 as A64, Ordering as O};
+    let reg = make_region::<FAtomic>(0x1000, 4096, 4096, &mut Rng::new(1, "litmus", 0));
+    let gm = std::sync::Arc::new(GuestMemoryMmap::from_regions(vec![reg]).unwrap());
+    let phase = std::sync::Arc::new(A64::new(0));
+    let copied = std::sync::Arc::new(A64::new(0));
+    let lost = std::sync::Arc::new(A64::new(0));
+    let first = std::sync::Arc::new(A64::new(u64::MAX));
+    let g2 = gm.clone();
+    let (p2, c2) = (phase.clone(), copied.clone());
+    // harvester thread
+    let h = std::thread::spawn(move || {
+        let region = g2.iter().next().unwrap();
+        let host = region.as_ptr() as *const u64;
+        for r in 1..=rounds {
+            while p2.load(O::Acquire) != 2 * r - 1 {
+                std::hint::spin_loop();
+            }
+            // clear, then copy
+            region.bitmap().reset_addr_range(0, 4096);
+            // SAFETY: inside the region; a plain (volatile) read as a migration thread would do.
+            let v = unsafe { host.add(8).read_volatile() };
+            c2.store(v, O::Release);
+            p2.store(2 * r, O::Release);
+        }
+    });
+    let region = gm.iter().next().unwrap();
+    for r in 1..=rounds {
+        // the page starts the round dirty
+        region.bitmap().set_addr_range(0, 1);
+        phase.store(2 * r - 1, O::Release);
+        // write, then mark (both inside write_obj)
+        let _ = gm.write_obj::<u64>(r, GuestAddress(0x1000 + 64));
+        while phase.load(O::Acquire) != 2 * r {
+            std::hint::spin_loop();
+        }
+        let clean = !region.bitmap().dirty_at(64);
+        if clean && copied.load(O::Acquire) != r {
+            if lost.fetch_add(1, O::Relaxed) == 0 {
+                first.store(r, O::Relaxed);
+            }
+        }
+    }
+    let _ = h.join();
+    let l = lost.load(O::Relaxed);
+    if l > 0 {
+        out::viol("C05/litmus/page-left-clean-although-the-copy-misses-the-write", jobj! {"rounds" => rounds, "lost_writes" => l, "first_round" => first.load(O::Relaxed)});
+    }
+    out::count("harvest_litmus_rounds", rounds as i128);
+    out::key("litmus|write-then-mark-vs-clear-then-copy", true);
+    out::eval(rounds);
+}
+
 pub fn run(args: &Args) {
+    #[cfg(not(feature = "xen"))]
+    if args.shard().0 == 2 % args.shard().1 && !cfg!(miri) && !args.flag("nolitmus") {
+        harvest_litmus(args.u64("litmus", 3_000_000));
+    }
     #[cfg(not(feature = "xen"))]
     if args.shard().0 == 0 && !cfg!(miri) && !args.flag("nohuge") {
         if let Err(p) = guarded(huge_region) {
